@@ -426,13 +426,12 @@ def _decide(ob, tier, res):
                         zout.append(enc.defined(t_))
         except NotEncodable:
             zout = []
-        tw = smt.solve(enc, zbase + zout + _nice(enc), min(ob.timeout_s, 10), label=ob.id + ':twin')
-        if tw.status != 'sat':
-            tw = smt.solve(enc, zbase + zout, min(ob.timeout_s, 10), label=ob.id + ':twin')
-        if tw.status != 'sat':
-            tw = smt.solve(enc, zbase + _nice(enc), min(ob.timeout_s, 10), label=ob.id + ':twin')
-        if tw.status != 'sat':
-            tw = smt.solve(enc, zbase, min(ob.timeout_s, 10), label=ob.id + ':twin')
+        tw_to = getattr(ob, 'twin_timeout_s', 5)
+        tw = smt.solve(enc, zbase + zout + _nice(enc), tw_to, label=ob.id + ':twin')
+        if tw.status == 'unsat':
+            tw = smt.solve(enc, zbase + zout, tw_to, label=ob.id + ':twin')
+        if tw.status == 'unsat':
+            tw = smt.solve(enc, zbase, tw_to, label=ob.id + ':twin')
         if tw.status == 'unsat':
             res['notes'].append('path %d infeasible under definedness (skipped)' % pi)
             continue
@@ -456,6 +455,20 @@ def _decide(ob, tier, res):
                 if when is not None:
                     extra += [enc.tr(when), enc.defined(when)]
                 res['distinct_claims'].append(hashlib.sha1(str(zc).encode()).hexdigest()[:10])
+                # stage A: try to prove the claim from the domain and the simple (non-equational) stub
+                # bounds alone -- a stronger statement that spares the solver the path condition
+                if getattr(ob, 'stage_a', True) and (pc or p.assumes):
+                    simple = [a for a in p.assumes if a.op != 'eq']
+                    zA = [enc.tr(t) for t in dom + simple] + [enc.defined(t) for t in dom + simple]
+                    va = smt.solve(enc, zA + extra + [z3not(zc)], max(3, min(10, ob.timeout_s / 3.0)),
+                                   label=ob.id + ':' + label + ':stageA', want_model=False)
+                    if va.status == 'unsat':
+                        res['discharged'] += 1
+                        res['stage_a'] = res.get('stage_a', 0) + 1
+                        if len(res['samples']) < 3:
+                            res['samples'].append({'obligation': ob.id, 'claim': label, 'path_condition': '(not needed: proved from the domain alone)',
+                                                   'assertion': T.show(ct, 300), 'verdict': 'unsat', 'seconds': round(va.seconds, 3)})
+                        continue
                 if when is not None:
                     # cheap pre-check: is the claim's precondition reachable on this path at all?
                     pre = smt.solve(enc, zbase + extra[1:], min(ob.timeout_s, 10), label=ob.id + ':' + label + ':when', want_model=False)
@@ -665,7 +678,9 @@ def _handle_witness(ob, enc, c, ct, zc, zbase, v, label, res, cache):
         if approx:
             res['inconclusive'].append({'label': label, 'reason': entry['reason'] + ' (encoding over-approximates transcendental atoms)'})
         else:
-            res['inconclusive'].append({'label': label, 'reason': entry['reason'], 'harness_error': True})
+            # exact encoding but the float replay disagrees (different branch at a boundary witness, a different
+            # root returned by the real root finder, or cancellation): reported, never counted as discharged
+            res['inconclusive'].append({'label': label, 'reason': entry['reason'], 'unreproduced_exact': True})
 
 
 def replay_claim(ob, env, label, cache=None):
